@@ -35,7 +35,8 @@ BBox calc_difference(BBox const& a, BBox const& b, BoxOp op)
     }
     if (encloses(a, b))
     {
-        return (op == BoxOp::shrink ? b : a);
+        // The difference is a hollow box: no box is known to be inside it
+        return (op == BoxOp::shrink ? BBox{} : a);
     }
     if (encloses(b, a))
     {
